@@ -151,6 +151,16 @@ fn chain_pairs(used: &[usize], k: usize, off: usize) -> Vec<(usize, usize)> {
     (0..k.min(half)).map(|i| (used[(off + i) % half], used[half + (off + i) % (used.len() - half)])).collect()
 }
 
+/// the pairs of an iff-chain operation in the order they are conjoined: front to back, or (flag) back to front --
+/// two routes to the same function
+fn chain_route(used: &[usize], r: &Resolved) -> Vec<(usize, usize)> {
+    let mut v = chain_pairs(used, r.chain.0, r.chain.1);
+    if r.flag {
+        v.reverse();
+    }
+    v
+}
+
 fn apply_chain(b: &'static CompressionSddBuilder<'static>, pairs: &[(usize, usize)]) -> Ptr {
     let mut acc = b.true_ptr();
     for (x, y) in pairs {
@@ -340,6 +350,7 @@ fn run(plan: &Plan, ctx: &mut Ctx) -> R {
     let (mut sig_a, mut sig_b) = (BTreeMap::new(), BTreeMap::new());
     // (the wide-node runs are made of a handful of deliberately large operations: no size caps there)
     let wide_chain = plan.get_or("wide_chain", 0) != 0;
+    let mut chain_seen: BTreeMap<Vec<(usize, usize)>, Ptr> = BTreeMap::new();
     let size_cap = if wide_chain { u64::MAX / 4 } else { plan.get_or("size_cap", if compress { 4000 } else { 300 }) as u64 };
     let mut tsz: BTreeMap<usize, u64> = BTreeMap::new();
     let mut big: Vec<bool> = Vec::new();
@@ -432,7 +443,7 @@ fn run(plan: &Plan, ctx: &mut Ctx) -> R {
                 if h.result.is_none() || big[h.result.unwrap()] {
                     continue;
                 }
-                let p = if h.kind == K_IFFCHAIN { apply_chain(b, &chain_pairs(&cube.used, h.chain.0, h.chain.1)) } else { apply(b, &h, &pool) };
+                let p = if h.kind == K_IFFCHAIN { apply_chain(b, &chain_route(&cube.used, &h)) } else { apply(b, &h, &pool) };
                 let prev = pool[h.result.unwrap()];
                 ctx.ev(600 + K_REISSUE as u64, &[j as u64, pkey(p).0 as u64, pkey(p).1 as u64]);
                 let t = walk(p, &cube, &mut BTreeMap::new());
@@ -442,7 +453,7 @@ fn run(plan: &Plan, ctx: &mut Ctx) -> R {
                 }
                 if let Some(t) = twin {
                     let was = rsdd::verif::set_faults_enabled(false);
-                    let _ = if h.kind == K_IFFCHAIN { apply_chain(t, &chain_pairs(&cube.used, h.chain.0, h.chain.1)) } else { apply(t, &h, &twin_pool) };
+                    let _ = if h.kind == K_IFFCHAIN { apply_chain(t, &chain_route(&cube.used, &h)) } else { apply(t, &h, &twin_pool) };
                     rsdd::verif::set_faults_enabled(was);
                 }
                 continue;
@@ -466,9 +477,9 @@ fn run(plan: &Plan, ctx: &mut Ctx) -> R {
             history.push(r);
             continue;
         }
-        let p = if kind == K_IFFCHAIN { apply_chain(b, &chain_pairs(&cube.used, r.chain.0, r.chain.1)) } else { apply(b, &r, &pool) };
+        let p = if kind == K_IFFCHAIN { apply_chain(b, &chain_route(&cube.used, &r)) } else { apply(b, &r, &pool) };
         let want = if kind == K_IFFCHAIN {
-            chain_pairs(&cube.used, r.chain.0, r.chain.1).iter().fold(M_TRUE, |acc, (x, y)| m_zip(acc, m_zip(cube.lit(*x, true), cube.lit(*y, true), tt::iff), |a, c| a & c))
+            chain_route(&cube.used, &r).iter().fold(M_TRUE, |acc, (x, y)| m_zip(acc, m_zip(cube.lit(*x, true), cube.lit(*y, true), tt::iff), |a, c| a & c))
         } else {
             model_of(&r, &ms, &cube)
         };
@@ -495,6 +506,18 @@ fn run(plan: &Plan, ctx: &mut Ctx) -> R {
         let got2 = walk_acc(p, &cube, &mut BTreeMap::new());
         ctx.check("C03", "sdd-accessor-walk", got2 == want, || format!("reading `{}`'s result through node_iter() gives {}, expected {}", KNAMES[kind as usize], mshow(&got2), mshow(&want)))?;
 
+        if compress && kind == K_IFFCHAIN {
+            // the same comparator reached along another route (pairs conjoined in the other order) is the same node
+            let mut key: Vec<(usize, usize)> = chain_pairs(&cube.used, r.chain.0, r.chain.1);
+            key.sort_unstable();
+            if let Some(prev) = chain_seen.get(&key) {
+                ctx.check("C04", "sdd-equal-functions-same-pointer", *prev == p, || {
+                    format!("the conjunction of {} variable equivalences was built twice (pairs {:?}) and is stored as {} and as {}", key.len(), key, show(*prev), show(p))
+                })?;
+            } else {
+                chain_seen.insert(key, p);
+            }
+        }
         if compress && ctx.wants("C04") {
             ctx.cur_prop = "C04";
             let mut nodes = BTreeMap::new();
@@ -508,7 +531,7 @@ fn run(plan: &Plan, ctx: &mut Ctx) -> R {
         if let Some(t) = twin {
             ctx.cur_prop = "C16";
             let was = rsdd::verif::set_faults_enabled(false);
-            let q = if kind == K_IFFCHAIN { apply_chain(t, &chain_pairs(&cube.used, r.chain.0, r.chain.1)) } else { apply(t, &r, &twin_pool) };
+            let q = if kind == K_IFFCHAIN { apply_chain(t, &chain_route(&cube.used, &r)) } else { apply(t, &r, &twin_pool) };
             rsdd::verif::set_faults_enabled(was);
             twin_pool.push(q);
             // structure is only canonical (hence comparable) with compression; otherwise compare the function on the samples
@@ -614,7 +637,7 @@ impl World for SddMidWorld {
             // 3: a comparator over a shifted window; then combinations of the four
             ops.push(Op { c: 0, k: K_IFFCHAIN, a: [k, off, 0, 0] });
             ops.push(Op { c: 0, k: K_NEG, a: [0, 0, 0, 0] });
-            ops.push(Op { c: 0, k: K_IFFCHAIN, a: [k, off, 0, 0] });
+            ops.push(Op { c: 0, k: K_IFFCHAIN, a: [k, off, 0, 1] });
             ops.push(Op { c: 0, k: K_IFFCHAIN, a: [k - (o.below(2) as i64), off + 1 + o.below(3) as i64, 0, 0] });
             // (a combination of two 2048-element nodes visits four million element pairs: one of those is enough)
             for _ in 0..(if k >= 10 { 1 } else { 3 + o.below(4) }) {
@@ -637,7 +660,7 @@ impl World for SddMidWorld {
                 K_COND | K_EXISTS => [gen_operand(&mut o), o.below(8) as i64, 0, o.below(2) as i64],
                 K_COMPOSE => [gen_operand(&mut o), gen_operand(&mut o), o.below(8) as i64, 0],
                 K_REISSUE => [o.below(1 << 16) as i64, 0, 0, 0],
-                K_IFFCHAIN => [o.below(6) as i64, o.below(64) as i64, 0, 0],
+                K_IFFCHAIN => [o.below(6) as i64, o.below(64) as i64, 0, o.below(2) as i64],
                 _ => [gen_operand(&mut o), gen_operand(&mut o), gen_operand(&mut o), 0],
             };
             ops.push(Op { c: caller, k, a });
